@@ -1973,15 +1973,28 @@ namespace xsimd
                 using int_batch = typename bitwise_cast_batch<T, A>::type;
                 using int_type = typename int_batch::value_type;
 
+                // the representable neighbours of b: one step away from zero / towards zero on the bit pattern
+                static XSIMD_INLINE batch_type away(const batch_type& b) noexcept
+                {
+                    return ::xsimd::bitwise_cast<T>(::xsimd::bitwise_cast<int_type>(b) + int_type(1));
+                }
+
+                static XSIMD_INLINE batch_type towards(const batch_type& b) noexcept
+                {
+                    return ::xsimd::bitwise_cast<T>(::xsimd::bitwise_cast<int_type>(b) - int_type(1));
+                }
+
                 static XSIMD_INLINE batch_type next(const batch_type& b) noexcept
                 {
-                    batch_type n = ::xsimd::bitwise_cast<T>(::xsimd::bitwise_cast<int_type>(b) + int_type(1));
+                    batch_type n = select(b < batch_type(0.), towards(b), away(b));
+                    n = select(b == batch_type(0.), ::xsimd::bitwise_cast<T>(int_batch(int_type(1))), n);
                     return select(b == constants::infinity<batch_type>(), b, n);
                 }
 
                 static XSIMD_INLINE batch_type prev(const batch_type& b) noexcept
                 {
-                    batch_type p = ::xsimd::bitwise_cast<T>(::xsimd::bitwise_cast<int_type>(b) - int_type(1));
+                    batch_type p = select(b > batch_type(0.), towards(b), away(b));
+                    p = select(b == batch_type(0.), -::xsimd::bitwise_cast<T>(int_batch(int_type(1))), p);
                     return select(b == constants::minusinfinity<batch_type>(), b, p);
                 }
             };
@@ -1990,8 +2003,9 @@ namespace xsimd
         XSIMD_INLINE batch<T, A> nextafter(batch<T, A> const& from, batch<T, A> const& to, requires_arch<generic>) noexcept
         {
             using kernel = detail::nextafter_kernel<T, A>;
-            return select(from == to, from,
-                          select(to > from, kernel::next(from), kernel::prev(from)));
+            batch<T, A> r = select(from == to, to,
+                                   select(to > from, kernel::next(from), kernel::prev(from)));
+            return select(isnan(from) || isnan(to), from + to, r);
         }
 
         // pow
